@@ -589,7 +589,8 @@ class Gen:
         if not qs2:
             return None
         q = self._pick(qs2, "q")
-        pr = self._pick([0.125, 0.25, 0.5, 0.0625, 0.75, 1.0, 0.0], "ch-p")
+        # (incl. values next to the special cases 0 and 1, where implementations take shortcuts)
+        pr = self._pick([0.125, 0.25, 0.5, 0.0625, 0.75, 1.0, 0.0, 0.999995, 0.000005], "ch-p")
         kind = self.t.weighted([3, 2, 2, 2, 2, 2, 2, 2, 2, 1, 2, 2, 1], "ch-kind")
         bits = 2.0
         op = None
